@@ -130,6 +130,7 @@ func cmdCheck(args []string) int {
 	vdir := fs.String("verif", "/verif", "verification directory")
 	updateBaseline := fs.Bool("update-baseline", false, "rewrite baseline for this property (only on the unchanged tree)")
 	noEvidence := fs.Bool("no-evidence", false, "do not write evidence (mutant runs)")
+	replaysDir := fs.String("replays", "", "directory for replay files (default <verif>/replays)")
 	fs.Parse(args)
 	if fs.NArg() < 2 {
 		fmt.Fprintln(os.Stderr, "usage: govc check [flags] <property> <quick|thorough>")
@@ -273,7 +274,10 @@ func cmdCheck(args []string) int {
 	undecided := 0
 	var reports []oblReport
 	var samples []map[string]string
-	os.MkdirAll(filepath.Join(*vdir, "replays"), 0o755)
+	if *replaysDir == "" {
+		*replaysDir = filepath.Join(*vdir, "replays")
+	}
+	os.MkdirAll(*replaysDir, 0o755)
 	for _, a := range aggs {
 		seen[a.name] = true
 		st := a.status()
@@ -314,7 +318,7 @@ func cmdCheck(args []string) int {
 					break
 				}
 			}
-			rp := writeReplay(*vdir, prop, a.name, bad, *repo)
+			rp := writeReplay(*replaysDir, prop, a.name, bad, *repo)
 			suffix := ""
 			if !rp.confirmed {
 				suffix = " no-failing-input-found"
@@ -465,8 +469,8 @@ type replayResult struct {
 	confirmed bool
 }
 
-func writeReplay(vdir, prop, name string, o *Obligation, repo string) replayResult {
-	path := filepath.Join(vdir, "replays", prop+"-"+sanitize(name)+".json")
+func writeReplay(rdir, prop, name string, o *Obligation, repo string) replayResult {
+	path := filepath.Join(rdir, prop+"-"+sanitize(name)+".json")
 	rp := map[string]interface{}{
 		"property":      prop,
 		"obligation":    name,
